@@ -54,7 +54,13 @@ func init() {
 type Rec struct {
 	A string `json:"a,omitempty"` // an empty A is absent from the stored JSON
 	N int    `json:"n"`
+	P string `json:"p,omitempty"` // padding: values with N == bigN are well above a kilobyte
 }
+
+// bigN: values carrying this number also carry 1500 bytes of padding.
+const bigN = 7
+
+var padding = strings.Repeat("0123456789", 150)
 
 // Bin is a BinaryMarshaler value type.
 type Bin struct {
@@ -123,12 +129,18 @@ func value(kind, a string, n int) interface{} {
 		if n == nanN {
 			return map[string]interface{}{"a": a, "n": math.NaN()}
 		}
+		if n == bigN && a != "" {
+			return map[string]interface{}{"a": a, "n": n, "p": padding}
+		}
 		if a == "" {
 			return map[string]interface{}{"n": n} // a value that lacks the indexed field
 		}
 		return map[string]interface{}{"a": a, "n": n}
 	case "binary":
 		return Bin{A: a, N: n}
+	}
+	if n == bigN {
+		return Rec{A: a, N: n, P: padding}
 	}
 	return Rec{A: a, N: n}
 }
@@ -204,7 +216,15 @@ func openEnv(dir string, w Workload) (*env, error) {
 	case "binary":
 		st.SetType(Bin{})
 	}
+	var prepMu sync.Mutex
+	prepared := map[string]*badgerstore.IndexQuery{}
 	qs := badgerstore.NewQueryStore(st, func(qs *badgerstore.QueryStore, q url.Values) (*badgerstore.IndexQuery, error) {
+		// the same query gets the same (prepared) IndexQuery value again
+		prepMu.Lock()
+		defer prepMu.Unlock()
+		if iq := prepared[q.Encode()]; iq != nil {
+			return iq, nil
+		}
 		p, _ := hex.DecodeString(q.Get("prefix"))
 		iq := &badgerstore.IndexQuery{Index: qs.Index(q.Get("index")), KeyPrefix: p, Limit: -1, Reverse: q.Get("reverse") == "true"}
 		if q.Get("window") == "1" {
@@ -212,6 +232,7 @@ func openEnv(dir string, w Workload) (*env, error) {
 			iq.FilterKeys = func(k []byte) bool { return len(k)%2 == 1 }
 			iq.Offset, iq.Limit = 1, 2
 		}
+		prepared[q.Encode()] = iq
 		return iq, nil
 	})
 	e := &env{db: db, st: st, qs: qs}
@@ -235,6 +256,15 @@ func (e *env) apply(w Workload, op Op) error {
 				add(s.ID, value(w.Kind, s.A, s.N))
 			}
 			return nil
+		})
+	case "initfail":
+		// an Init whose callback fails after having offered the seeds: nothing is seeded, the
+		// store is not marked, and a later Init call does the work
+		return e.st.Init(func(add func(id string, v interface{})) error {
+			for _, s := range w.Seeds {
+				add(s.ID, value(w.Kind, s.A, s.N))
+			}
+			return errors.New("seed source unavailable")
 		})
 	}
 	tx := e.st.Write(op.ID)
@@ -518,6 +548,10 @@ func step(w Workload, s state, op Op) (state, bool) {
 	}
 	n := s.clone()
 	switch op.K {
+	case "initfail":
+		// fails when the store is not initialised yet (the callback is then called and its
+		// error returned); on an initialised store Init returns nil without calling it
+		return s, n.inited
 	case "init":
 		if !n.inited {
 			for _, sd := range w.Seeds {
@@ -870,6 +904,10 @@ func genWorkload() *rapid.Generator[Workload] {
 		ng := rapid.IntRange(1, 3).Draw(t, "ngens")
 		for g := 0; g < ng; g++ {
 			ops := []Op{{K: "init"}}
+			if rapid.IntRange(0, 2).Draw(t, "failfirst") == 0 {
+				// the first attempt to seed fails; the process tries again
+				ops = []Op{{K: "initfail"}, {K: "init"}}
+			}
 			if rapid.IntRange(0, 2+2*g).Draw(t, "lateinit") == 0 {
 				// a generation that writes before it calls Init (Init may still come later),
 				// preferably to an id that is also a seed
@@ -881,9 +919,9 @@ func genWorkload() *rapid.Generator[Workload] {
 			}
 			n := rapid.IntRange(1, 8).Draw(t, "nops")
 			for i := 0; i < n; i++ {
-				k := rapid.SampledFrom([]string{"create", "create", "update", "update", "delete", "init", "upd2"}).Draw(t, "k")
+				k := rapid.SampledFrom([]string{"create", "create", "update", "update", "delete", "init", "upd2", "initfail"}).Draw(t, "k")
 				op := Op{K: k}
-				if k != "init" {
+				if k != "init" && k != "initfail" {
 					op.ID = rapid.SampledFrom(ids).Draw(t, "id")
 					op.A = rapid.SampledFrom(as).Draw(t, "a")
 					op.N = rapid.IntRange(0, 9).Draw(t, "n")
